@@ -8,7 +8,8 @@ EXE = {"detect": "ExDetect", "build": "ExBuild", "other": "ExOther"}
 DESC = {"ok": "DOk", "api_only": "DApiOnlyOk", "api_other": "DApiOther", "malformed": "DMalformed", "missing": "DMissing"}
 PLAT = {"ok": "PlatOk", "env_missing": "PlatEnvMissing", "bad": "PlatBad"}
 TIN = {"ok": "InOk", "missing": "InMissing", "malformed": "InMalformed"}
-DET = {"pass": "BPass", "pass_plan": "BPassPlan", "fail": "BFail", "error": "BErr"}
+DET = {"pass": "BPass", "pass_plan": "BPassPlan", "fail": "BFail", "error": "BErr",
+       "pass_plan_or": "BPassPlan", "pass_plan_empty": "BPassPlan"}   # plan shapes: all must be written
 FMT = {"cdx": "FCdx", "spdx": "FSpdx", "syft": "FSyft"}
 FOBS = {"absent": "FAbsent", "pre": "FPre", "new": "FNew", "other": "FOther", "n/a": "FAbsent"}
 
